@@ -96,6 +96,7 @@ class BinsInterp:
         self.ctx, self.func, self.consts = ctx, func, consts
         self.returns = []
         self.level_events = []  # (level index, kind, payload)
+        self.depth = 0
 
     def run(self, fmt, one, start_iv=(-INF, INF), stop_iv=(-INF, INF)):
         p = self.func.params
@@ -125,7 +126,81 @@ class BinsInterp:
                 break
         return states
 
+    # ------------------------------------------------- forks inside statements
+    def _module_callee(self, call):
+        if not isinstance(call, ast.Call):
+            return None
+        fs, _d = self.ctx.proj.resolve_call(call, self.func)
+        if len(fs) == 1 and fs[0].module is self.func.module and fs[0].qual != self.func.qual:
+            return fs[0]
+        return None
+
+    def inline(self, call, callee, env):
+        """[(value, path suffix)] of a call to a helper of the same module."""
+        if self.depth >= 3:
+            raise Unsup("bins.bins: helper calls nested deeper than 3")
+        sub = BinsInterp(self.ctx, callee, self.consts)
+        sub.depth = self.depth + 1
+        params = list(callee.params)
+        e2 = {}
+        defaults = callee.param_defaults()
+        for p_, a in zip(params, call.args):
+            e2[p_] = self.eval(a, env)
+        for k in call.keywords:
+            if k.arg is None:
+                raise Unsup("bins.bins: **kwargs in a helper call")
+            e2[k.arg] = self.eval(k.value, env)
+        for p_ in params:
+            if p_ not in e2:
+                if defaults.get(p_) is None:
+                    raise Unsup("bins.bins: helper %s called without %s" % (callee.name, p_))
+                e2[p_] = sub.eval(defaults[p_], {})
+        if "__level__" in env:
+            e2["__level__"] = env["__level__"]
+        sub.returns = []
+        rest = sub.block(callee.node.body, e2, [])
+        self.ctx.touch(callee)
+        out = [(r.value, r.path) for r in sub.returns]
+        out += [(None, p_) for _e, p_ in rest]
+        return out
+
+    def _forks(self, value, env):
+        """Alternatives [(kind, payload, env, path suffix)] for a statement's value expression that needs a fork:
+        conditional expressions, boolean-valued tests, helper calls.  None when the value is an ordinary expression."""
+        if isinstance(value, ast.IfExp):
+            return [("expr", value.body if o else value.orelse, e2, [(ast.unparse(value.test), o)]) for o, e2 in self.branch(value.test, env)]
+        if isinstance(value, (ast.Compare, ast.BoolOp)) or (isinstance(value, ast.UnaryOp) and isinstance(value.op, ast.Not)):
+            return [("value", o, e2, []) for o, e2 in self.branch(value, env)]
+        callee = self._module_callee(value)
+        if callee is not None:
+            return [("value", v, env, p_) for v, p_ in self.inline(value, callee, env)]
+        return None
+
     def stmt(self, st, env, path):
+        if isinstance(st, (ast.Assign, ast.Return)) or (isinstance(st, ast.Expr) and isinstance(st.value, ast.Call)):
+            value = st.value
+            forks = self._forks(value, env) if value is not None else None
+            if forks is not None:
+                out = []
+                for kind, payload, e2, suffix in forks:
+                    if kind == "expr":
+                        st2 = ast.copy_location(type(st)(**{k: getattr(st, k) for k in st._fields}), st)
+                        st2.value = payload
+                        out.extend(self.stmt(st2, e2, path + suffix))
+                        continue
+                    v = payload
+                    if isinstance(st, ast.Return):
+                        self.returns.append(Ret(v.copy() if isinstance(v, ASet) else v, st, list(path + suffix)))
+                    elif isinstance(st, ast.Assign):
+                        e3 = dict(e2)
+                        for t in st.targets:
+                            self.bind(t, v, e3) if isinstance(t, ast.Tuple) else e3.__setitem__(t.id, v) if isinstance(t, ast.Name) else None
+                            if not isinstance(t, (ast.Name, ast.Tuple)):
+                                raise Unsup("bins.bins: assignment target %s" % ast.unparse(t))
+                        out.append((e3, path + suffix))
+                    else:
+                        out.append((e2, path + suffix))
+                return out
         if isinstance(st, ast.Expr):
             if isinstance(st.value, ast.Constant):
                 return [(env, path)]
@@ -384,6 +459,14 @@ class BinsInterp:
 
     def compare(self, ln, op, rn, env):
         a, b = self.eval(ln, env), self.eval(rn, env)
+        if isinstance(op, (ast.Is, ast.IsNot)) and (a is None or b is None):
+            same = a is None and b is None
+            yield (same == isinstance(op, ast.Is), env)
+            return
+        if (a is None or b is None) and isinstance(op, (ast.Eq, ast.NotEq)):
+            same = a is None and b is None
+            yield (same == isinstance(op, ast.Eq), env)
+            return
         if isinstance(a, str) or isinstance(b, str):
             if isinstance(a, str) and isinstance(b, str) and isinstance(op, (ast.Eq, ast.NotEq)):
                 yield ((a == b) == isinstance(op, ast.Eq), env)
